@@ -1108,8 +1108,13 @@ impl<'a> Iso<'a> {
                         let others: Vec<u32> = (0..a.n_funcs())
                             .filter(|z| *z != x && !self.funcs.fwd.contains_key(z))
                             .collect();
-                        if others.into_iter().any(|z| self.trial_func(z, y).is_ok()) {
+                        // every input function that fits as well is a possible
+                        // preimage: the chosen one and its twins are all ambiguous
+                        // (a twin judged "removed" may be the one that survived)
+                        let twins: Vec<u32> = others.into_iter().filter(|z| self.trial_func(*z, y).is_ok()).collect();
+                        if !twins.is_empty() {
                             self.ambiguous_funcs.insert(x);
+                            self.ambiguous_funcs.extend(twins);
                         }
                         self.leftover_funcs.push(x);
                         self.bind_func(x, y, Area::Module, "gc leftover function")?;
